@@ -5,7 +5,7 @@ from .. import wire as W
 from ..runner import run_monitored
 
 
-def continuation(rng, net, mtu, n):
+def continuation(rng, net, mtu, n, query_first=False):
     m = rng.randrange(len(net.mappers))
     must = [G.f_discover(rng, net, m=m, tos=0, gen=0), G.f_discover(rng, net, m=m, tos=0, gen=rng.choice([1, 0xFF00, 0x1234])),
             G.f_discover(rng, net, m=m, tos=1, gen=0), G.f_discover(rng, net, m=m, tos=1, gen=rng.choice([2, 0x00FF])),
@@ -29,6 +29,9 @@ def continuation(rng, net, mtu, n):
         out = [first] + out
         if rng.random() < 0.5:
             out = [rng.choice([G.f_emit(rng, net, (m + 1) % 3, n=2)[0], G.f_query(rng, net, (m + 1) % 3, bridged=True)])] + out
+    if query_first:
+        # the first thing the new session's mapper does is ask for observations, then for the icon
+        out = [G.f_query(rng, net, m)] + ([G.f_qlt(rng, net, m, typ=0x0E, off=0)] if rng.random() < 0.5 else []) + out
     return out
 
 
@@ -41,8 +44,16 @@ def make_scenarios(ctx, count):
         net = G.Net(rng, cfg["mac"])
         glob = G.rand_global(rng, icon_size=rng.choice([0, 1, 300, 2000, 9000]))
         hl = rng.choice([0, 1, 5, 30, 100, 400]) if rng.random() < 0.8 else rng.randint(0, 400)
-        style = rng.choice(["session", "flood", "hijack", "noise"])
-        if style == "flood":
+        style = rng.choice(["session", "flood", "hijack", "noise", "icon"])
+        if style == "icon":
+            # a session in which the icon (and other large properties) were fetched; the platform's icon is replaced
+            # afterwards, at the latest right before the Reset
+            m0 = rng.randrange(3)
+            h = [G.f_discover(rng, net, m=m0, tos=rng.choice([0, 0, 1]))]
+            for _ in range(rng.randint(1, 4)):
+                h.append(G.f_qlt(rng, net, m0, typ=rng.choice([0x0E, 0x0E, 0x11, 0x13]), off=rng.choice([0, 0, 100])))
+            h += G.session_history(rng, net, mtu, rng.randint(0, 10), p_mut=0.0)
+        elif style == "flood":
             h = [G.f_discover(rng, net, m=0, tos=0)] + [G.f_probe(rng, net, to_me=True) for _ in range(hl)] + \
                 [G.f_query(rng, net, 0)] * rng.randint(0, 1)
         elif style == "hijack":
@@ -55,7 +66,7 @@ def make_scenarios(ctx, count):
             h = [G.f_noise(rng, mtu) for _ in range(hl)]
         else:
             h = G.session_history(rng, net, mtu, hl, p_mut=0.2)
-        c = continuation(rng, net, mtu, rng.randint(10, 60))
+        c = continuation(rng, net, mtu, rng.randint(10, 60), query_first=(style == "icon" and rng.random() < 0.6) or rng.random() < 0.05)
         s = H.Scenario("r%d" % i)
         kw = H.iface_kw(cfg)
         s.iface(0, **kw)
@@ -65,11 +76,17 @@ def make_scenarios(ctx, count):
         s.glob(**G.global_kw(glob))
         s.add("OPT sleep=1")
         switch_at = rng.randrange(len(h) + 1) if rng.random() < 0.5 else None
-        for j, fr in enumerate(h):
+        if style == "icon":
+            switch_at = len(h)                   # after everything was fetched
+        for j, fr in enumerate(h + [None]):
+            if fr is None and switch_at != j:
+                break
             if switch_at == j:
                 g2 = G.rand_global(rng, icon_size=rng.choice([0, 5, 700, 3000]))
                 glob = dict(glob, icon_seed=g2["icon_seed"], icon_size=g2["icon_size"], fname=g2["fname"], _icon_cache=None, icon=g2.get("icon"))
                 s.add("GSET icon=%s fname=%s" % (G.global_kw(glob)["icon"], glob["fname"].hex() or "-"))
+            if fr is None:
+                break
             s.frame(0, fr)
         rs = rng.choice([0, 0, 1, 0x4242, 0xFFFF, rng.getrandbits(16)])
         s.frame(0, W.reset(rng.choice(net.mappers), tos=0, seq=rs) if rng.random() < 0.7 else
@@ -147,3 +164,4 @@ def run(ctx):
     c = rep.counters
     rep.need("pairs", c.get("pairs", 0), ctx.n(1000, 25000))
     rep.need("icon_switched_during_history", c.get("icon_switched_during_history", 0), 100)
+    rep.need("style:icon (large properties fetched, icon replaced before the Reset)", c.get("style:icon", 0), 100)
